@@ -48,7 +48,7 @@ ASSUMPTIONS = [
 
 # reruns only when nothing is in flight: a rerun naming an execution whose action is still running is finding
 # C15-rerun-of-inflight-task (its late report raises KeyError), outside what C04 quantifies over
-FAM = progs.family(p_items=0.3, p_intermediate=0.15, intermediate_statuses=["paused", "paused", "running", "pausing"],
+FAM = progs.family(p_items=0.4, p_intermediate=0.2, intermediate_statuses=["paused", "paused", "running", "pausing"],
                    rerun_only_when_idle=True, steps=(15, 70), w_ctrl=1.6, w_malformed=0.3, p_fail=0.3, w_rerun=0.2)
 
 
@@ -69,7 +69,7 @@ def nontrivial(r):
 
 def run(ctx):
     return common.conductor_run(
-        ctx, "C04", FAM, common.project_full, monitors.c04, features, nontrivial, 300, 6000,
+        ctx, "C04", FAM, common.project_full, monitors.c04, features, nontrivial, 700, 6000,
         rule="generated definitions (2-7 tasks, joins, with-items, retries, commands) with random histories "
              "dense in control requests; a case is non-trivial when >= 3 API calls follow the first terminal "
              "status or a status request was rejected; distinct = distinct (definition, operation list)")
